@@ -405,7 +405,10 @@ func c15Gen(c *vfCtx, emit func(c15Case)) {
 					if !c.thorough() && pj != pi && (pi+pj)%2 != 0 {
 						continue
 					}
-					for _, kind := range []string{"anymulti", "typemulti", "anymultimap"} {
+					for _, kind := range []string{"anymulti", "typemulti", "anymultimap", "anymultiesc"} {
+						if kind == "anymultiesc" && lang != "json" {
+							continue // a placeholder that needs escaping in JSON text (quote, backslash, non-ASCII, control character)
+						}
 						emit(c15Case{Lang: lang, Doc: doc, Path: pi, Path2: pj, Kind: kind, PH: 0, Via: "direct"})
 					}
 				}
@@ -489,7 +492,7 @@ func c15Run(c *vfCtx, cs c15Case) {
 		}
 	}
 	c.addSet("nontrivial", vfHashJSON(cs))
-	if cs.Kind == "anymulti" || cs.Kind == "typemulti" || cs.Kind == "anymultimap" {
+	if cs.Kind == "anymulti" || cs.Kind == "typemulti" || cs.Kind == "anymultimap" || cs.Kind == "anymultiesc" {
 		if cs.Kind == "anymultimap" && cs.Lang == "yaml" {
 			// collection placeholders in YAML: only positions where a single-path replacement works are given a verdict (K11 elsewhere)
 			class = "K11-yaml-multiline-placeholder"
@@ -742,10 +745,14 @@ func c15Multi(c *vfCtx, cs c15Case, trees []*vfNode, ps [][]vfStep, di int, p []
 	var ph *vfNode
 	var jm match.JSONMatcher
 	var ym match.YAMLMatcher
-	if cs.Kind == "anymulti" {
-		m := match.Any(path, path2).Placeholder("PH")
+	if cs.Kind == "anymulti" || cs.Kind == "anymultiesc" {
+		phs := "PH"
+		if cs.Kind == "anymultiesc" {
+			phs = "é\"\\\t"
+		}
+		m := match.Any(path, path2).Placeholder(phs)
 		jm, ym = m, m
-		ph = c15PHTree("PH")
+		ph = c15PHTree(phs)
 	} else if cs.Kind == "anymultimap" {
 		pm := map[string]any{"k": 1, "l": "two"}
 		m := match.Any(path, path2).Placeholder(pm)
